@@ -435,15 +435,17 @@ def _fn_bindings(fn):
   a = fn.args
   params = [x.arg for x in a.posonlyargs + a.args + a.kwonlyargs] + \
       [x.arg for x in (a.vararg, a.kwarg) if x]
-  once = {k: v[0] for k, v in binds.items()
-          if len(v) == 1 and stores.get(k) == 1 and k not in params}
+  once = {k: v for k, v in binds.items()
+          if len(v) == stores.get(k) and k not in params}
   fn._c10r5_bindings = (params, set(stores), once)
   return fn._c10r5_bindings
 
 
-def _input_paths(fn, expr, depth=0):
-  """Dotted paths, rooted at a parameter or at a local that is not bound exactly
-  once, that `expr` reads (locals bound once are replaced by their value)."""
+def _input_paths(fn, expr, depth=0, mod=None):
+  """Dotted paths, rooted at a parameter or at a local that is not bound by plain
+  assignments only (loop / with / unpacking targets), that `expr` reads.  A
+  local bound by plain assignments is replaced by its value(s); when several
+  assignments can reach, by all of them and by the tests that choose."""
   params, stored, once = _fn_bindings(fn)
   bound_inside = set()
   for n in ast.walk(expr):
@@ -472,13 +474,18 @@ def _input_paths(fn, expr, depth=0):
       if r in ("self", "cls") or r in bound_inside:
         return
       if r in once and depth < 6:
-        v = once[r]
-        vroot, vattrs = chain(v)
-        if isinstance(vroot, ast.Name) and isinstance(v, (ast.Name, ast.Attribute)):
-          for pth in _input_paths(fn, v, depth + 1):
-            out.add(".".join([pth] + attrs))
-        else:
-          out.update(_input_paths(fn, v, depth + 1))
+        for v in once[r]:
+          vroot, vattrs = chain(v)
+          if isinstance(vroot, ast.Name) and isinstance(v, (ast.Name, ast.Attribute)):
+            for pth in _input_paths(fn, v, depth + 1, mod):
+              out.add(".".join([pth] + attrs))
+          else:
+            out.update(_input_paths(fn, v, depth + 1, mod))
+          if len(once[r]) > 1 and mod is not None:
+            st = mod.enclosing_stmt(v)
+            for t, _ in flow.guards(mod.parent, st, stop=fn):
+              if r not in flow.names_in(t):
+                out.update(_input_paths(fn, t, depth + 1, mod))
         return
       if r in params or r in stored:
         out.add(".".join([r] + attrs))
@@ -633,10 +640,10 @@ def r10_51(ctx):
           continue
         for node, key, value in m["fills"]:
           n_memo += 1
-          vpaths = _input_paths(fn, value)
-          kpaths = _input_paths(fn, key) if key is not None else set()
+          vpaths = _input_paths(fn, value, 0, mod)
+          kpaths = _input_paths(fn, key, 0, mod) if key is not None else set()
           for rk in m["reads"]:
-            rp = _input_paths(fn, rk) if rk is not None else set()
+            rp = _input_paths(fn, rk, 0, mod) if rk is not None else set()
             if rp != kpaths:
               raise AnalysisError(
                   f"{qual}: {cont} is looked up with `{src(rk) if rk is not None else '-'}` "
@@ -720,7 +727,7 @@ VARIANTS = [
      "new": "    return [b for b in mro_bases if b.full_name == \"typing.Generic\"]\n"},
     {"name": "get_mro_bases-drops-by-identity", "rule": "R10.50", "file": AU, "expect": "error",
      "old": _GMB_LOOP,
-     "new": "    base = base_var.data[0]\n    if base is base.ctx.convert.object_type:\n      continue\n    mro_bases.append(base)\n"},
+     "new": "    base = base_var.data[0]\n    if base is bases[0].data[0].ctx.convert.object_type:\n      continue\n    mro_bases.append(base)\n"},
     {"name": "twin-generic-filter-as-loop-with-flag", "rule": "R10.50", "file": AU, "expect": "silent",
      "old": _GMB_RET,
      "new": "    kept = []\n    for entry in mro_bases:\n      is_generic = entry.full_name == \"typing.Generic\"\n      if is_generic:\n        continue\n      kept.append(entry)\n    return kept\n"},
@@ -741,10 +748,13 @@ VARIANTS = [
     {"name": "proxy-memo-keyed-by-class-and-object-NAME", "rule": "R10.51", "expect": "fire",
      "edits": _proxy_memo("(cls_data, obj.data.name)")},
     {"name": "proxy-in-single-lazy-slot", "rule": "R10.51", "expect": "fire",
-     "edits": _proxy_memo(None, init=False, body=(
-         "          if getattr(self, \"_proxy\", None) is None:\n"
-         "            self._proxy = SuperInstance(cls_data, obj.data, self.ctx)\n"
-         "          result.AddBinding(self._proxy, [cls, obj], node)\n"))},
+     "edits": [(SB, _SUPER_NEW,
+                "          if self._proxy is None:\n"
+                "            self._proxy = SuperInstance(cls_data, obj.data, self.ctx)\n"
+                "          result.AddBinding(self._proxy, [cls, obj], node)\n"),
+               (SB, _SUPER_SIG,
+                "  def __init__(self, name, ctx, module):\n    super().__init__(name, ctx, module)\n"
+                "    self._proxy = None\n\n" + _SUPER_SIG)]},
     {"name": "proxy-memo-at-module-level-setdefault-by-object-class", "rule": "R10.51", "expect": "fire",
      "edits": [(SB, _SUPER_NEW,
                 "          proxy = _SUPER_PROXIES.setdefault(\n"
